@@ -104,6 +104,7 @@ type Frame struct {
 	// how to bind the result in the caller when this (inlined) frame returns
 	RetTo     ssa.Value
 	RetStay   bool // caller does not advance (RunDefers)
+	CallInstr ssa.Instruction
 	LoopSeen  map[*ssa.BasicBlock]bool
 	Con       *Contract // contract of Fn if it is the function under verification
 	IsRoot    bool
@@ -119,6 +120,9 @@ type State struct {
 	Path    []string        // trace of decisions (for samples / debugging)
 	Dead    bool
 	CallCount map[string]int // per static callee ordinal on this path (for naming)
+	Lets    map[string]SV // site-level let bindings of the function under verification
+	CurArgs []SV          // arguments of the root-frame call being executed
+	CurRet  *SV
 }
 
 func (s *State) top() *Frame { return s.Stack[len(s.Stack)-1] }
@@ -142,6 +146,14 @@ func (s *State) clone() *State {
 	for k, v := range s.CallCount {
 		n.CallCount[k] = v
 	}
+	if s.Lets != nil {
+		n.Lets = make(map[string]SV, len(s.Lets))
+		for k, v := range s.Lets {
+			n.Lets[k] = v
+		}
+	}
+	n.CurArgs = s.CurArgs
+	n.CurRet = s.CurRet
 	for _, f := range s.Stack {
 		nf := *f
 		nf.Regs = make(map[ssa.Value]Val, len(f.Regs))
